@@ -53,11 +53,16 @@ type TxSpec struct {
 }
 
 type Universe struct {
-	Name      string
-	Txs       []TxSpec // Txs[i] is transaction i+1
-	NFund     int
-	WitCoins  map[Outpoint]bool // outputs that are P2WSH (spent through a witness)
-	WitSigOps map[Outpoint]int  // OP_CHECKSIGs in the witness script of a P2WSH coin (cost 1 each for the spender)
+	Name       string
+	Txs        []TxSpec // Txs[i] is transaction i+1
+	NFund      int
+	WitCoins   map[Outpoint]bool // outputs that are P2WSH (spent through a witness)
+	WitSigOps  map[Outpoint]int  // OP_CHECKSIGs in the witness script of a P2WSH coin (cost 1 each for the spender)
+	P2SHSigOps map[Outpoint]int  // the coin is P2SH and its redeem script holds this many OP_CHECKSIG (cost 4 each for the spender)
+	WitPad     map[Outpoint]int  // OP_NOPs in the witness script of a P2WSH coin: its spender's size exceeds its vsize by 3/4 of them
+	// SubsidyInterval overrides chaincfg.Params.SubsidyReductionInterval (0: the network's
+	// 150) so that the blocks of a run cross a halving.
+	SubsidyInterval int
 	// Standard turns the standardness checks on (Policy.AcceptNonStd = false); every
 	// output is then P2SH.
 	Standard bool
@@ -287,11 +292,24 @@ func BuiltinUniverses() []*Universe {
 		defaults(Universe{Name: "rbf", NFund: 2, Maturity: 2, SlotParent: []int{0}, MaxOrphans: 1, MaxBlockTxs: 1, Standalone: true,
 			Txs: []TxSpec{
 				{Ins: ins(fund(0)), NOut: 2, Fee: 2000, Rbf: true},
-				{Ins: ins(out(1, 0)), Fee: 1000},
+				{Ins: ins(out(1, 1)), Fee: 1000},                    // child on an output index >= the parent's input count
 				{Ins: ins(fund(0)), Fee: 3100},                      // = 2000+1000+minfee(100)
 				{Ins: ins(fund(0)), Fee: 3099},                      // one short of the absolute fee rule
 				{Ins: ins(fund(0), fund(1)), Fee: 4000, VSize: 200}, // fee rate 20000 = t1's rate, absolute fee sufficient
 				{Ins: ins(baseCB()), Fee: 1000},                     // immature until a block is mined (maturity 2)
+			}}),
+		// RBF among transactions that carry about a hundred bytes of witness data
+		// (fund coin 0 is P2WSH with a padded witness script), so fee per raw byte
+		// and fee per virtual byte differ: t1 pays 20000/kvB; t2 pays 13500/kvB
+		// (above t1's rate per raw byte, about 11900), t3 exactly t1's rate, t4 just above.
+		defaults(Universe{Name: "rbfwit", NFund: 2, SlotParent: []int{0}, MaxOrphans: 1, MaxBlockTxs: 1, Standalone: false,
+			WitCoins: map[Outpoint]bool{fund(0): true}, WitPad: map[Outpoint]int{fund(0): 100},
+			Txs: []TxSpec{
+				{Ins: ins(fund(0)), NOut: 2, Fee: 2400, VSize: 120, Rbf: true},
+				{Ins: ins(fund(0)), Fee: 2700, VSize: 200},
+				{Ins: ins(fund(0)), Fee: 4000, VSize: 200},
+				{Ins: ins(fund(0)), Fee: 4020, VSize: 200},
+				{Ins: ins(out(1, 1)), Fee: 500},
 			}}),
 		// Orphans: a chain t1 -> t2 -> t3 with a conflicting spender t4 of t1's
 		// output and an oversized orphan t5.
@@ -373,16 +391,23 @@ func BuiltinUniverses() []*Universe {
 				{Ins: ins(fund(1)), Fee: 1000, Rbf: true},
 			}}),
 		// Signature operation limit: t1 (cost 40000) and t2 (39996) fill the block
-		// up to a P2PKH coinbase (4); t3 (40000) never fits with both; t4 spends a
-		// P2WSH coin whose witness script holds one OP_CHECKSIG (cost 1) at a low fee
-		// rate, so it is the last candidate.
-		defaults(Universe{Name: "sigops", NFund: 4, SlotParent: []int{0}, MaxOrphans: 0, MaxBlockTxs: 1, Standalone: false,
-			WitCoins: map[Outpoint]bool{fund(3): true}, WitSigOps: map[Outpoint]int{fund(3): 1},
+		// up to a P2PKH coinbase (4); t3 spends a P2WSH coin whose witness script holds
+		// one OP_CHECKSIG (cost 1) at a low fee rate, so it is the last candidate.
+		// t4 spends a plain coin and then a P2SH coin whose redeem script holds three OP_CHECKSIG.
+		defaults(Universe{Name: "sigops", NFund: 6, SlotParent: []int{0}, MaxOrphans: 0, MaxBlockTxs: 1, Standalone: false,
+			WitCoins: map[Outpoint]bool{fund(3): true}, WitSigOps: map[Outpoint]int{fund(3): 1}, P2SHSigOps: map[Outpoint]int{fund(5): 3},
 			Txs: []TxSpec{
 				{Ins: ins(fund(0)), Fee: 9000, VSize: 700, SigOps: 500},
 				{Ins: ins(fund(1)), Fee: 8000, VSize: 700, SigOps: 499, SigOpsCS: 19},
-				{Ins: ins(fund(2)), Fee: 7000, VSize: 700, SigOps: 500},
 				{Ins: ins(fund(3)), Fee: 150},
+				{Ins: ins(fund(4), fund(5)), Fee: 2000, VSize: 250},
+			}}),
+		// Subsidy halving every four blocks: the second block mined here (absolute
+		// height 4) is a halving block, templates are made for heights 3, 4 and 5.
+		defaults(Universe{Name: "halving", NFund: 1, SlotParent: []int{0, 1}, MaxOrphans: 0, MaxBlockTxs: 1, Standalone: false, SubsidyInterval: 4,
+			Txs: []TxSpec{
+				{Ins: ins(fund(0)), Fee: 1000},
+				{Ins: ins(out(1, 0)), Fee: 2000},
 			}}),
 		// Required difficulty above the minimum on a ReduceMinDifficulty network
 		// (retargeting every 20 blocks, base chain of 41 blocks): templates made and
